@@ -1,19 +1,10 @@
 package p_oracle
 
 import (
-	"fmt"
 	"sort"
 	"strings"
-
-	"oss.terrastruct.com/d2/d2format"
-	"oss.terrastruct.com/d2/d2graph"
-	"oss.terrastruct.com/d2/d2oracle"
-	"oss.terrastruct.com/d2/d2parser"
-
-	"verif/harness/canon"
 )
 
-// ---------------------------------------------------------------------------------------
 // shared helpers of the property checks
 
 func (o *stepObs) ok() bool { return o.panicked == nil && o.err == nil }
@@ -74,945 +65,3 @@ func relation(bs []board, b, addr int) string {
 	}
 	return "unrelated"
 }
-
-// ---------------------------------------------------------------------------------------
-// C36: every successful edit yields source that compiles to the returned diagram and that the
-// formatter leaves unchanged.
-
-type c36 struct{ x *exec }
-
-func (k *c36) prop() string { return "C36" }
-
-func (k *c36) check(o *stepObs) {
-	x, c := o.x, o.c
-	if !o.ok() {
-		return
-	}
-	name := opNames[c.kind]
-	if c.nonRoot && x.okEdits >= 1 || c.kind == opUpdateImport && x.okEdits >= 1 {
-		x.nt = true
-	}
-	if o.postG == nil {
-		sig := "edited-source-does-not-compile:" + name
-		if o.postErr != nil && strings.Contains(o.postErr.Error(), "compiler panic") {
-			sig = "edited-source-crashes-compiler:" + name
-		}
-		if c.kind == opUpdateImport {
-			if c.impNew == nil {
-				sig += ":remove"
-			} else {
-				sig += ":repath"
-			}
-			switch e := o.postErr.Error(); {
-			case strings.Contains(e, "indexed edge does not exist"):
-				sig += ":dangling-connection-reference"
-			case strings.Contains(e, "near"):
-				sig += ":dangling-near"
-			}
-		}
-		x.fail(o.step, sig, "%s succeeded but the source it produced does not compile: %v\n%s", c, o.postErr, o.ctx())
-		return
-	}
-	if o.retG != nil {
-		var d string
-		if p := guard(func() { d = canon.Diff(canon.Of(o.retG).Sorted(), canon.Of(o.postG).Sorted()) }); p != nil {
-			x.fail(o.step, "returned-graph-unusable:"+name, "projecting the returned graph panicked: %s", p.val)
-			return
-		}
-		if d != "" {
-			x.fail(o.step, "returned-graph-differs-from-source:"+name, "%s: the returned graph is not what its source compiles to: %s\n%s", c, d, o.ctx())
-		}
-	}
-	m, err := d2parser.Parse("index.d2", strings.NewReader(o.postText), nil)
-	if err != nil {
-		x.fail(o.step, "edited-source-does-not-parse:"+name, "%v", err)
-		return
-	}
-	if t2 := d2format.Format(m); t2 != o.postText {
-		x.fail(o.step, unstableSig(o.postText, t2), "%s: the formatter changes the source the edit produced\n--- produced\n%s--- formatted again\n%s%s", c, o.postText, t2, o.ctx())
-	}
-}
-
-func noBlank(s string) string {
-	var out []string
-	for _, l := range strings.Split(s, "\n") {
-		if strings.TrimSpace(l) != "" {
-			out = append(out, l)
-		}
-	}
-	return strings.Join(out, "\n")
-}
-
-func hasBoardKeyword(s string) bool {
-	return strings.Contains(s, "layers") || strings.Contains(s, "scenarios") || strings.Contains(s, "steps")
-}
-
-// unstableSig classifies a formatter instability narrowly.
-func unstableSig(a, b string) string {
-	switch {
-	case noBlank(a) == noBlank(b) && hasBoardKeyword(a):
-		return "not-formatter-stable:board-blank-lines"
-	case noBlank(a) == noBlank(b):
-		return "not-formatter-stable:blank-lines"
-	case hasBoardKeyword(a):
-		return "not-formatter-stable:board"
-	}
-	return "not-formatter-stable"
-}
-
-// ---------------------------------------------------------------------------------------
-// C37: Create and Set change exactly what they name.
-
-type c37 struct{ x *exec }
-
-func (k *c37) prop() string { return "C37" }
-
-func (k *c37) before(o *stepObs) {
-	if governs(o.c.kind) == "C37" {
-		o.forceStates()
-	}
-}
-
-func allowedSetCells(cell string) func(string) bool {
-	return func(ch string) bool {
-		if ch == cell {
-			return true
-		}
-		switch {
-		case cell == "label":
-			// a block-string label carries its language, and a markdown/code label is a text/code shape
-			return ch == "language" || ch == "shape"
-		case strings.HasPrefix(cell, "source-arrowhead."):
-			return strings.HasPrefix(ch, "source-arrowhead.")
-		case strings.HasPrefix(cell, "target-arrowhead."):
-			return strings.HasPrefix(ch, "target-arrowhead.")
-		}
-		return false
-	}
-}
-
-func (k *c37) check(o *stepObs) {
-	x, c := o.x, o.c
-	if governs(c.kind) != "C37" || !o.ok() || o.postG == nil {
-		return
-	}
-	name := opNames[c.kind]
-	if c.nonRoot && x.okEdits >= 1 {
-		x.nt = true
-	}
-	pre := x.pre(c.bd)
-	pj := postBoard(o.postBs, c.bp)
-	if pj < 0 {
-		x.fail(o.step, "board-vanished:"+name, "%s: the addressed board no longer exists\n%s", c, o.ctx())
-		return
-	}
-	post := stateOf(o.postBs[pj].g)
-	al := idAlias(pre, post)
-	d := diffStates(pre, post, al)
-
-	// the new / addressed element
-	var addedOK map[string]bool // markers (post) that may be new
-	switch c.kind {
-	case opCreateObj:
-		obj := d2oracle.GetObj(o.postG, c.bp, o.newKey)
-		if obj == nil || obj == o.postBs[pj].g.Root {
-			x.fail(o.step, "create:returned-key-not-found", "%s returned key %q which denotes no object afterwards\n%s", c, o.newKey, o.ctx())
-			return
-		}
-		id := strings.ToLower(obj.AbsID())
-		if m, ok := pre.byID[id]; ok {
-			x.fail(o.step, "create:returned-key-existed", "%s returned key %q, an object that existed before (%s)\n%s", c, o.newKey, m, o.ctx())
-			return
-		}
-		nm := post.byID[id]
-		addedOK = map[string]bool{nm: true}
-		for p := post.els[nm].parent; p != ""; p = post.els[p].parent {
-			addedOK[p] = true
-		}
-		if !setOf(d.added)[nm] {
-			x.fail(o.step, "create:new-object-not-new", "%s: %q is not among the new elements %v\n%s", c, o.newKey, d.added, o.ctx())
-			return
-		}
-		if o.newKey != c.key {
-			x.label("create:key-uniquified")
-		}
-		if len(d.added) > 1 {
-			x.label("create:with-missing-containers")
-		}
-	case opCreateEdge:
-		e := d2oracle.GetEdge(o.postG, c.bp, o.newKey)
-		if e == nil {
-			x.fail(o.step, "create:returned-key-not-found", "%s returned key %q which is the ID of no connection afterwards (connections: %v)\n%s", c, o.newKey, ids(post, post.edges), o.ctx())
-			return
-		}
-		id := strings.ToLower(e.AbsID())
-		if m, ok := pre.byID[id]; ok {
-			x.fail(o.step, "create:returned-key-existed", "%s returned key %q, a connection that existed before (%s)\n%s", c, o.newKey, m, o.ctx())
-			return
-		}
-		nm := post.byID[id]
-		addedOK = map[string]bool{nm: true}
-		ne := post.els[nm]
-		rs, rd := al[ne.src], al[ne.dst]
-		if rs != c.srcM || rd != c.dstM {
-			x.fail(o.step, "create:connection-joins-other-objects", "%s: new connection %s joins %s,%s instead of %s,%s\n%s", c, ne.absID, rs, rd, c.srcM, c.dstM, o.ctx())
-			return
-		}
-		if ne.index > 0 {
-			x.label("create:parallel-connection")
-		}
-	default:
-		tm, ok := post.byID[strings.ToLower(c.elemID)]
-		if !ok {
-			x.fail(o.step, "set:target-vanished:"+c.cell, "%s: the element %s no longer exists\n%s", c, c.elemID, o.ctx())
-			return
-		}
-		got, has := post.els[tm].cells[c.cell]
-		want := *c.value
-		same := has && got == want
-		if !same && has && c.attr != nil && c.attr.keyword && strings.EqualFold(got, want) {
-			same = true
-			x.label("set:keyword-case-folded")
-		}
-		if !same && has && c.tag != nil && strings.TrimSpace(got) == strings.TrimSpace(want) {
-			// block strings cannot carry leading / trailing white space: left open
-			same = true
-			x.label("gray:block-string-trims-whitespace")
-		}
-		if !same {
-			x.fail(o.step, setValueSig(c, want, got, has), "%s: afterwards %s of %s is %q (present=%v), want %q\n%s", c, c.cell, c.elemID, got, has, want, o.ctx())
-		}
-		if c.tag != nil {
-			if lang := post.els[tm].cells["language"]; lang != "markdown" {
-				x.fail(o.step, "set:block-tag-ignored", "%s: language afterwards is %q\n%s", c, lang, o.ctx())
-			}
-			x.label("set:label-md")
-		}
-	}
-
-	// everything else unchanged on the addressed board
-	for _, a := range d.added {
-		if !addedOK[a] {
-			x.fail(o.step, name+":unexpected-new-element", "%s: unexpected new element %s (%s); %s\n%s", c, a, post.els[a].absID, d, o.ctx())
-			return
-		}
-	}
-	if len(d.removed) > 0 {
-		x.fail(o.step, name+":element-lost", "%s: lost %v; %s\n%s", c, idsPre(pre, d.removed), d, o.ctx())
-		return
-	}
-	for _, m := range d.keys() {
-		ch := d.changed[m]
-		if (c.kind == opSetLabel || c.kind == opSetAttr) && m == c.elem {
-			if bad := only(ch, allowedSetCells(c.cell)); len(bad) > 0 {
-				x.fail(o.step, "set:"+cellClass(c.cell)+":other-cell-of-target-changed:"+cellClass(bad[0]), "%s: also changed %v of the same element\n%s", c, bad, o.ctx())
-				return
-			}
-			continue
-		}
-		what := "other-element-changed"
-		if c.kind == opCreateEdge && pre.els[m].edge && len(only(ch, func(a string) bool { return a == "@absid" || a == "@index" })) == 0 {
-			what = "existing-connection-renumbered"
-		}
-		x.fail(o.step, name+":"+what, "%s: element %s (%s) changed %v\n%s", c, m, pre.els[m].absID, ch, o.ctx())
-		return
-	}
-
-	// other boards
-	for i := range x.boards {
-		if i == c.bd {
-			continue
-		}
-		j := postBoard(o.postBs, x.boards[i].path)
-		if j < 0 {
-			x.fail(o.step, "board-vanished:"+name, "%s: board %v no longer exists\n%s", c, x.boards[i].path, o.ctx())
-			return
-		}
-		pi, pj := x.pre(i), stateOf(o.postBs[j].g)
-		inh := inheritsFrom(x.boards, i, c.bd)
-		al := idAlias(pi, pj)
-		if inh {
-			// a connection added to the base renumbers the board's own parallel connections:
-			// match connections by marker where there is one
-			for _, pm := range pj.edges {
-				if _, ok := pi.els[pm]; ok && !strings.HasPrefix(pm, "id:") {
-					al[pm] = pm
-				}
-			}
-		}
-		di := diffStates(pi, pj, al)
-		if !inh {
-			if !di.empty() {
-				x.fail(o.step, name+":unrelated-board-changed", "%s: board %v (%s) changed: %s\n%s", c, x.boards[i].path, relation(x.boards, i, c.bd), di, o.ctx())
-				return
-			}
-			continue
-		}
-		// a board that starts from the addressed one sees the same edit, nothing else
-		var lostObjs []string
-		for _, m := range di.removed {
-			if !pi.els[m].edge {
-				lostObjs = append(lostObjs, m)
-			}
-		}
-		if di.removed = lostObjs; len(di.removed) > 0 {
-			x.fail(o.step, name+":element-lost@inheriting-board", "%s: board %v lost %v\n%s", c, x.boards[i].path, idsPre(pi, di.removed), o.ctx())
-			return
-		}
-		for _, a := range di.added {
-			if pj.els[a].edge {
-				continue
-			}
-			if _, ok := post.byID[strings.ToLower(pj.els[a].absID)]; !ok {
-				x.fail(o.step, name+":unexpected-new-element@inheriting-board", "%s: board %v got %s\n%s", c, x.boards[i].path, pj.els[a].absID, o.ctx())
-				return
-			}
-		}
-		for _, m := range di.keys() {
-			ch := di.changed[m]
-			if pi.els[m].edge {
-				continue // connections of an inheriting board are renumbered by edits of the base: not compared
-			}
-			if (c.kind == opSetLabel || c.kind == opSetAttr) && strings.EqualFold(pi.els[m].absID, c.elemID) {
-				if bad := only(ch, allowedSetCells(c.cell)); len(bad) == 0 {
-					continue
-				}
-			}
-			if c.kind == opCreateObj && len(only(ch, func(a string) bool { return a == "@absid" || a == "@id" })) == 0 {
-				continue // the board's own object merges with a new base object whose name differs in letter case only
-			}
-			x.fail(o.step, name+":other-element-changed@inheriting-board", "%s: board %v element %s changed %v\n%s", c, x.boards[i].path, pi.els[m].absID, ch, o.ctx())
-			return
-		}
-	}
-}
-
-func cellClass(cell string) string {
-	if i := strings.IndexByte(cell, '.'); i > 0 && (strings.HasPrefix(cell, "style.") || strings.Contains(cell, "arrowhead")) {
-		return cell[:i]
-	}
-	return cell
-}
-
-func setValueSig(c *call, want, got string, has bool) string {
-	cls := "other"
-	lw := strings.ToLower(want)
-	switch {
-	case !has:
-		cls = "absent"
-	case lw == "true" || lw == "false":
-		cls = "boolean"
-	case lw == "null":
-		cls = "null"
-	case c.tag != nil && strings.TrimSpace(got) == strings.TrimSpace(want):
-		cls = "block-string-whitespace"
-	case c.tag != nil:
-		cls = "block-string"
-	case strings.EqualFold(got, want):
-		cls = "letter-case"
-	case strings.TrimSpace(got) == strings.TrimSpace(want):
-		cls = "whitespace"
-	}
-	return "set-value-differs:" + cellClass(c.cell) + ":" + cls
-}
-
-func ids(st *bstate, ms []string) []string {
-	var out []string
-	for _, m := range ms {
-		out = append(out, st.els[m].absID)
-	}
-	return out
-}
-
-func idsPre(st *bstate, ms []string) []string {
-	var out []string
-	for _, m := range ms {
-		out = append(out, m+"="+st.els[m].absID)
-	}
-	return out
-}
-
-// ---------------------------------------------------------------------------------------
-// C38: Delete removes exactly the target and keeps its children.
-
-type c38 struct{ x *exec }
-
-func (k *c38) prop() string { return "C38" }
-
-func (k *c38) before(o *stepObs) {
-	if governs(o.c.kind) == "C38" {
-		o.forceStates()
-	}
-}
-
-func groupOf(absID string) string {
-	if i := strings.LastIndexByte(absID, '['); i > 0 {
-		return absID[:i]
-	}
-	return absID
-}
-
-func (k *c38) check(o *stepObs) {
-	x, c := o.x, o.c
-	if governs(c.kind) != "C38" || !o.ok() || o.postG == nil {
-		return
-	}
-	name := opNames[c.kind]
-	pre := x.pre(c.bd)
-	if !pre.marked {
-		x.label("unchecked:unmarked-state")
-		return
-	}
-	if c.nonRoot && x.okEdits >= 1 {
-		x.nt = true
-	}
-	pj := postBoard(o.postBs, c.bp)
-	if pj < 0 {
-		x.fail(o.step, "board-vanished:"+name, "%s: the addressed board no longer exists\n%s", c, o.ctx())
-		return
-	}
-	post := stateOf(o.postBs[pj].g)
-	d := diffStates(pre, post, nil)
-	suffix := ""
-	if c.tInherited {
-		x.label(name + ":inherited-target")
-	}
-	if c.tForeign {
-		x.label(name + ":imported-target")
-	}
-	if len(d.added) > 0 {
-		x.fail(o.step, name+":new-element"+suffix, "%s: new elements %v; %s\n%s", c, ids(post, d.added), d, o.ctx())
-		return
-	}
-	T := pre.els[c.elem]
-	switch c.kind {
-	case opDeleteObj:
-		want := map[string]bool{T.m: true}
-		for _, e := range pre.edges {
-			if pre.els[e].src == T.m || pre.els[e].dst == T.m {
-				want[e] = true
-			}
-		}
-		kids := setOf(pre.children(T.m))
-		if len(kids) > 0 {
-			x.label("delete-obj:container")
-		}
-		rem := setOf(d.removed)
-		for _, m := range sortedKeys(want) {
-			if !rem[m] {
-				what := "target"
-				if m != T.m {
-					what = "attached-connection"
-				}
-				x.fail(o.step, "delete-obj:"+what+"-survives"+suffix, "%s: %s (%s) still exists; %s\n%s", c, m, pre.els[m].absID, d, o.ctx())
-				return
-			}
-		}
-		for _, m := range d.removed {
-			if want[m] {
-				continue
-			}
-			what := "unrelated-object"
-			e := pre.els[m]
-			switch {
-			case e.edge && (pre.under(e.src, T.m) || pre.under(e.dst, T.m)):
-				what = "connection-of-descendant"
-			case e.edge:
-				what = "unrelated-connection"
-			case kids[m]:
-				what = "child"
-			case pre.under(m, T.m):
-				what = "descendant"
-			}
-			if o.postBs[pj].g.IsFolderOnly {
-				// the board's block became empty, the formatter prints it as a bare key, which is a folder
-				what = "rest-of-emptied-board"
-			}
-			x.fail(o.step, "delete-obj:"+what+"-lost"+suffix, "%s: %s (%s) is gone too; %s\n%s", c, m, e.absID, d, o.ctx())
-			return
-		}
-		for _, m := range d.keys() {
-		ch := d.changed[m]
-			e := pre.els[m]
-			var allowed func(string) bool
-			switch {
-			case kids[m]:
-				if post.els[m].parent != T.parent {
-					x.fail(o.step, "delete-obj:child-not-moved-to-parent"+suffix, "%s: child %s (%s) now lives under %q, deleted object's parent was %q\n%s", c, m, e.absID, post.els[m].parent, T.parent, o.ctx())
-					return
-				}
-				collide := false
-				for _, s := range pre.children(T.parent) {
-					if s != T.m && strings.EqualFold(pre.els[s].id, e.id) {
-						collide = true
-					}
-				}
-				if collide {
-					x.label("delete-obj:child-name-taken")
-				}
-				allowed = func(a string) bool { return a == "@absid" || a == "@parent" || (a == "@id" && collide) }
-			case !e.edge && pre.under(m, T.m):
-				allowed = func(a string) bool { return a == "@absid" }
-			case e.edge && (pre.under(e.src, T.m) || pre.under(e.dst, T.m)):
-				allowed = func(a string) bool { return a == "@absid" || a == "@index" }
-			default:
-				allowed = func(string) bool { return false }
-			}
-			if bad := only(ch, allowed); len(bad) > 0 {
-				what := "other-element-changed"
-				if m == T.parent && !strings.HasPrefix(bad[0], "@") {
-					what = "attribute-moved-to-parent"
-				} else if kids[m] && bad[0] == "@id" {
-					what = "child-renamed-without-collision"
-				} else if pre.under(m, T.m) || e.edge && (pre.under(e.src, T.m) || pre.under(e.dst, T.m)) {
-					what = "descendant-changed:" + strings.TrimPrefix(cellClass(bad[0]), "@")
-				}
-				x.fail(o.step, "delete-obj:"+what+suffix, "%s: %s (%s) changed %v\n%s", c, m, e.absID, bad, o.ctx())
-				return
-			}
-		}
-		// every kept child is a child of the former parent
-		for _, m := range sortedKeys(kids) {
-			if pe, ok := post.els[m]; ok && pe.parent != T.parent {
-				x.fail(o.step, "delete-obj:child-not-moved-to-parent"+suffix, "%s: child %s now lives under %q\n%s", c, m, pe.parent, o.ctx())
-				return
-			}
-		}
-	case opDeleteEdge:
-		if len(d.removed) != 1 || d.removed[0] != T.m {
-			sig := "delete-edge:removed-other"
-			if len(d.removed) == 0 {
-				sig = "delete-edge:target-survives"
-			}
-			x.fail(o.step, sig+suffix, "%s: removed %v, want exactly %s; %s\n%s", c, idsPre(pre, d.removed), T.m, d, o.ctx())
-			return
-		}
-		for _, m := range d.keys() {
-		ch := d.changed[m]
-			e := pre.els[m]
-			later := e.edge && groupOf(e.absID) == groupOf(T.absID) && e.index > T.index
-			if later {
-				x.label("delete-edge:renumbered-parallel")
-				if post.els[m].index != e.index-1 {
-					x.fail(o.step, "delete-edge:parallel-not-renumbered"+suffix, "%s: parallel connection %s (%s) has index %d afterwards\n%s", c, m, e.absID, post.els[m].index, o.ctx())
-					return
-				}
-			}
-			if bad := only(ch, func(a string) bool { return later && (a == "@index" || a == "@absid") }); len(bad) > 0 {
-				x.fail(o.step, "delete-edge:other-element-changed"+suffix, "%s: %s (%s) changed %v\n%s", c, m, e.absID, bad, o.ctx())
-				return
-			}
-		}
-		for _, m := range pre.edges {
-			e := pre.els[m]
-			if m != T.m && groupOf(e.absID) == groupOf(T.absID) && e.index > T.index {
-				if pe, ok := post.els[m]; ok && pe.index != e.index-1 {
-					x.fail(o.step, "delete-edge:parallel-not-renumbered"+suffix, "%s: parallel connection %s (%s) has index %d afterwards\n%s", c, m, e.absID, pe.index, o.ctx())
-					return
-				}
-			}
-		}
-	case opDeleteAttr:
-		if len(d.removed) > 0 {
-			x.fail(o.step, "delete-attr:element-lost"+suffix, "%s: lost %v\n%s", c, idsPre(pre, d.removed), o.ctx())
-			return
-		}
-		_, had := T.cells[c.cell]
-		if had {
-			x.label("delete-attr:was-set")
-			if v, still := post.els[T.m].cells[c.cell]; still {
-				x.fail(o.step, "delete-attr:not-reset:"+cellClass(c.cell)+suffix, "%s: %s is still %q\n%s", c, c.cell, v, o.ctx())
-				return
-			}
-		}
-		for _, m := range d.keys() {
-		ch := d.changed[m]
-			if bad := only(ch, func(a string) bool { return m == T.m && a == c.cell }); len(bad) > 0 {
-				what := "other-element-changed"
-				if m == T.m {
-					what = cellClass(c.cell) + ":other-cell-of-target-changed:" + cellClass(bad[0])
-				} else if bad[0] == c.cell && !T.edge && pre.under(m, T.m) {
-					what = "same-attribute-of-descendant-reset"
-				} else if bad[0] == c.cell && T.edge {
-					what = "same-attribute-of-other-connection-reset"
-				}
-				x.fail(o.step, "delete-attr:"+what+suffix, "%s: %s (%s) changed %v\n%s", c, m, pre.els[m].absID, bad, o.ctx())
-				return
-			}
-		}
-	}
-	k.otherBoards(o, name)
-}
-
-// otherBoards: boards that do not start from the addressed one are untouched (by markers / IDs).
-func (k *c38) otherBoards(o *stepObs, name string) { unrelatedBoardsSame(o, name) }
-
-func unrelatedBoardsSame(o *stepObs, name string) {
-	x, c := o.x, o.c
-	for i := range x.boards {
-		if i == c.bd || inheritsFrom(x.boards, i, c.bd) {
-			continue
-		}
-		j := postBoard(o.postBs, x.boards[i].path)
-		if j < 0 {
-			x.fail(o.step, "board-vanished:"+name, "%s: board %v no longer exists\n%s", c, x.boards[i].path, o.ctx())
-			return
-		}
-		pi, pj := x.pre(i), stateOf(o.postBs[j].g)
-		if di := diffStates(pi, pj, idAlias(pi, pj)); !di.empty() {
-			x.fail(o.step, name+":unrelated-board-changed", "%s: board %v (%s) changed: %s\n%s", c, x.boards[i].path, relation(x.boards, i, c.bd), di, o.ctx())
-			return
-		}
-	}
-}
-
-// ---------------------------------------------------------------------------------------
-// C39: Rename and Move relocate objects without losing anything.
-
-type c39 struct{ x *exec }
-
-func (k *c39) prop() string { return "C39" }
-
-func (k *c39) before(o *stepObs) {
-	if governs(o.c.kind) == "C39" {
-		o.forceStates()
-	}
-}
-
-func (k *c39) check(o *stepObs) {
-	x, c := o.x, o.c
-	if governs(c.kind) != "C39" || !o.ok() || o.postG == nil {
-		return
-	}
-	name := opNames[c.kind]
-	pre := x.pre(c.bd)
-	if !pre.marked {
-		x.label("unchecked:unmarked-state")
-		return
-	}
-	if c.nonRoot && x.okEdits >= 1 {
-		x.nt = true
-	}
-	pj := postBoard(o.postBs, c.bp)
-	if pj < 0 {
-		x.fail(o.step, "board-vanished:"+name, "%s: the addressed board no longer exists\n%s", c, o.ctx())
-		return
-	}
-	post := stateOf(o.postBs[pj].g)
-	d := diffStates(pre, post, nil)
-	T := pre.els[c.elem]
-	cross := c.kind == opMove && c.dest != T.parent
-	if c.kind == opMove {
-		switch {
-		case !cross:
-			x.label("move:same-scope")
-			name = "move-same-scope"
-		case c.inclDesc:
-			name = "move+desc"
-		}
-		if cross && c.dest == "" {
-			x.label("move:to-root")
-		} else if cross && pre.under(T.m, c.dest) {
-			x.label("move:outwards")
-		} else if cross {
-			x.label("move:into-container")
-		}
-		if len(pre.children(T.m)) > 0 {
-			x.label(name + ":container")
-		}
-	}
-	if len(d.removed) > 0 {
-		what := "element"
-		e := pre.els[d.removed[0]]
-		switch {
-		case e.m == T.m:
-			what = "target"
-		case e.edge:
-			what = "connection"
-		case pre.under(e.m, T.m):
-			what = "descendant"
-		}
-		x.fail(o.step, name+":"+what+"-lost", "%s: lost %v; %s\n%s", c, idsPre(pre, d.removed), d, o.ctx())
-		return
-	}
-	// new elements: only containers on the destination path
-	if len(d.added) > 0 {
-		okAdded := map[string]bool{}
-		if pt, ok := post.els[T.m]; ok {
-			for p := pt.parent; p != ""; p = post.els[p].parent {
-				okAdded[p] = true
-			}
-		}
-		for _, a := range d.added {
-			if !okAdded[a] || post.els[a].edge {
-				x.fail(o.step, name+":new-element", "%s: new element %s; %s\n%s", c, post.els[a].absID, d, o.ctx())
-				return
-			}
-		}
-		x.label("move:created-containers")
-	}
-	pt := post.els[T.m]
-	if cross && pt.parent != c.dest {
-		x.fail(o.step, name+":not-at-destination", "%s: %s now lives under %q, destination was %q (%s)\n%s", c, T.m, pt.parent, c.dest, pt.absID, o.ctx())
-		return
-	}
-	kids := setOf(pre.children(T.m))
-	for _, m := range d.keys() {
-		ch := d.changed[m]
-		e := pre.els[m]
-		var allowed func(string) bool
-		switch {
-		case m == T.m:
-			allowed = func(a string) bool { return a == "@id" || a == "@absid" || (cross && a == "@parent") }
-		case kids[m] && cross && !c.inclDesc:
-			// children that are not moved stay in the former parent; renamed only if the name is taken there
-			if post.els[m].parent != T.parent {
-				x.fail(o.step, name+":child-not-left-in-former-parent", "%s: child %s (%s) now lives under %q, former parent %q\n%s", c, m, e.absID, post.els[m].parent, T.parent, o.ctx())
-				return
-			}
-			collide := false
-			for _, s := range pre.children(T.parent) {
-				if strings.EqualFold(pre.els[s].id, e.id) {
-					collide = true
-				}
-			}
-			if collide {
-				x.label("move:child-name-taken")
-			}
-			allowed = func(a string) bool { return a == "@absid" || a == "@parent" || (a == "@id" && collide) }
-		case !e.edge && pre.under(m, T.m):
-			allowed = func(a string) bool { return a == "@absid" }
-		case e.edge && (pre.under(e.src, T.m) || pre.under(e.dst, T.m)):
-			// the ID of an attached connection changes with its ends; parallel ones may swap their order
-			allowed = func(a string) bool { return a == "@absid" || a == "@index" }
-			if post.els[m].index != e.index {
-				x.label("gray:parallel-connections-reordered")
-			}
-		default:
-			allowed = func(string) bool { return false }
-		}
-		if bad := only(ch, allowed); len(bad) > 0 {
-			what := "other-element-changed"
-			switch {
-			case m == T.m:
-				what = "target-changed"
-			case !e.edge && pre.under(m, T.m):
-				what = "descendant-changed"
-			case e.edge && (bad[0] == "@src" || bad[0] == "@dst"):
-				what = "connection-reattached"
-			case e.edge && (pre.under(e.src, T.m) || pre.under(e.dst, T.m)):
-				what = "attached-connection-changed"
-			case e.edge:
-				what = "other-connection-changed"
-			}
-			x.fail(o.step, name+":"+what+":"+strings.TrimPrefix(cellClass(bad[0]), "@"), "%s: %s (%s) changed %v; %s\n%s", c, m, e.absID, bad, d, o.ctx())
-			return
-		}
-	}
-	if cross && !c.inclDesc {
-		for _, m := range sortedKeys(kids) {
-			if post.els[m].parent != T.parent {
-				x.fail(o.step, name+":child-moved-along", "%s: child %s still lives under %q although descendants were not included\n%s", c, m, post.els[m].parent, o.ctx())
-				return
-			}
-		}
-	}
-	if cross && c.inclDesc {
-		for _, m := range sortedKeys(kids) {
-			if post.els[m].parent != T.m {
-				x.fail(o.step, name+":child-left-behind", "%s: child %s lives under %q although descendants were included\n%s", c, m, post.els[m].parent, o.ctx())
-				return
-			}
-		}
-	}
-	unrelatedBoardsSame(o, name)
-}
-
-// ---------------------------------------------------------------------------------------
-// C40: ID-change predictions match the edits they predict.
-
-type c40 struct{ x *exec }
-
-func (k *c40) prop() string { return "C40" }
-
-func hasDeltas(c *call) bool {
-	switch c.kind {
-	case opDeleteObj, opDeleteEdge, opDeleteAttr, opRename, opReconnect:
-		return true
-	case opMove:
-		return c.bd == 0 // MoveIDDeltas has no board path
-	}
-	return false
-}
-
-func (k *c40) before(o *stepObs) {
-	x, c := o.x, o.c
-	if !hasDeltas(c) {
-		return
-	}
-	x.pre(c.bd)
-	o.deltasSet = true
-	g := x.g
-	p := guard(func() {
-		switch c.kind {
-		case opDeleteObj, opDeleteEdge, opDeleteAttr:
-			o.deltas, o.deltasErr = d2oracle.DeleteIDDeltas(g, c.bp, c.key)
-		case opRename:
-			o.deltas, o.deltasErr = d2oracle.RenameIDDeltas(g, c.bp, c.key, c.newName)
-		case opMove:
-			o.deltas, o.deltasErr = d2oracle.MoveIDDeltas(g, c.key, c.newKey, c.inclDesc)
-		case opReconnect:
-			o.deltas, o.deltasErr = d2oracle.ReconnectEdgeIDDeltas(g, c.bp, c.key, c.srcKey, c.dstKey)
-		}
-	})
-	if p != nil {
-		x.label("panic:deltas:" + opNames[c.kind])
-		x.fail(o.step, p.sig+"@deltas:"+opNames[c.kind], "ID deltas for %s panicked: %s\n%s\nsource:\n%s", c, p.val, p.stack, x.text)
-		o.deltasSet = false
-		// the graph may be half-modified: start the edit from a fresh compile
-		x.reload()
-		x.pre(c.bd)
-	}
-}
-
-func (k *c40) check(o *stepObs) {
-	x, c := o.x, o.c
-	if !o.deltasSet || !o.ok() || o.postG == nil {
-		return
-	}
-	name := opNames[c.kind]
-	if c.kind == opMove && c.inclDesc {
-		name += "+desc"
-	}
-	if o.deltasErr != nil {
-		x.label("deltas-refused-edit-ok:" + name)
-		return
-	}
-	pre := x.pre(c.bd)
-	if !pre.marked {
-		x.label("unchecked:unmarked-state")
-		return
-	}
-	pj := postBoard(o.postBs, c.bp)
-	if pj < 0 {
-		return
-	}
-	post := stateOf(o.postBs[pj].g)
-	if !post.marked {
-		x.label("unchecked:unmarked-post-state")
-		return
-	}
-	if c.nonRoot && x.okEdits >= 1 {
-		x.nt = true
-	}
-	if len(o.deltas) > 0 {
-		x.label("deltas:nonempty:" + name)
-	} else {
-		x.label("deltas:empty:" + name)
-	}
-	for _, m := range pre.order {
-		a := pre.els[m]
-		b, survives := post.els[m]
-		want, predicted := o.deltas[a.absID]
-		kind := "object"
-		if a.edge {
-			kind = "connection"
-		}
-		if !survives {
-			if predicted {
-				x.fail(o.step, "delta-for-removed-"+kind+":"+name, "%s: %s (%s) is removed by the edit but the deltas predict %q -> %q\ndeltas: %v\n%s", c, m, a.absID, a.absID, want, o.deltas, o.ctx())
-				return
-			}
-			continue
-		}
-		if !predicted {
-			want = a.absID
-		}
-		if b.absID != want {
-			what := "wrong-new-id"
-			if !predicted {
-				what = "unpredicted-id-change"
-			} else if b.absID == a.absID {
-				what = "predicted-change-did-not-happen"
-			}
-			x.fail(o.step, "delta-mismatch:"+what+":"+kind+":"+name, "%s: %s %s had ID %q, deltas predict %q, the edit gives %q\ndeltas: %v\n%s", c, kind, m, a.absID, want, b.absID, o.deltas, o.ctx())
-			return
-		}
-	}
-}
-
-// ---------------------------------------------------------------------------------------
-// C41: edits on a board stay within that board (and the boards that start from it).
-
-type c41 struct{ x *exec }
-
-func (k *c41) prop() string { return "C41" }
-
-func (k *c41) before(o *stepObs) {
-	x, c := o.x, o.c
-	if c.bd == 0 || c.kind == opUpdateImport {
-		return
-	}
-	for i := range x.boards {
-		if !inheritsFrom(x.boards, i, c.bd) {
-			x.preCanon(i)
-		}
-	}
-}
-
-func (k *c41) compare(o *stepObs, g *d2graph.Graph, sigPrefix string) {
-	x, c := o.x, o.c
-	bs := listBoards(g)
-	for i := range x.boards {
-		if inheritsFrom(x.boards, i, c.bd) {
-			continue
-		}
-		rel := relation(x.boards, i, c.bd)
-		j := postBoard(bs, x.boards[i].path)
-		if j < 0 {
-			x.fail(o.step, sigPrefix+"board-vanished:"+rel, "%s: board %v no longer exists\n%s", c, x.boards[i].path, o.ctx())
-			return
-		}
-		if d := canon.Diff(x.preCanon(i), canonAlone(bs[j].g)); d != "" {
-			x.fail(o.step, sigPrefix+"other-board-changed:"+opNames[c.kind]+":"+rel, "%s addressed to board %v changed board %v (%s): %s\n%s", c, c.bp, x.boards[i].path, rel, d, o.ctx())
-			return
-		}
-	}
-}
-
-func (k *c41) check(o *stepObs) {
-	x, c := o.x, o.c
-	if c.bd == 0 || c.kind == opUpdateImport || o.panicked != nil {
-		return
-	}
-	if x.okEdits >= 1 {
-		x.nt = true
-	}
-	x.label("board-edit:" + x.boards[c.bd].kind)
-	if o.err != nil {
-		// a refused edit must not have changed the caller's graph
-		var t string
-		if p := guard(func() { t = d2format.Format(x.g.AST) }); p != nil {
-			x.fail(o.step, "refused-edit-left-unprintable-ast:"+opNames[c.kind], "%s was refused (%v) and formatting the caller's AST now panics: %s", c, o.err, p.val)
-			return
-		}
-		if t == x.text {
-			x.label("refused@board:source-untouched")
-			return
-		}
-		x.label("refused@board:source-modified")
-		g, err := compileText(x.files, t)
-		if err != nil {
-			x.fail(o.step, "refused-edit-broke-source:"+opNames[c.kind], "%s was refused (%v) but the caller's graph was modified and no longer compiles: %v\n--- caller's source now\n%s%s", c, firstLine(o.err.Error()), err, t, o.ctx())
-			return
-		}
-		k.compare(o, g, "refused:")
-		return
-	}
-	if o.postG == nil {
-		return
-	}
-	k.compare(o, o.postG, "")
-}
-
-var _ = fmt.Sprint
